@@ -496,6 +496,48 @@ class FileSplicer:
                 if nhit == 0 and not s.optional:
                     raise SpliceError('lost anchor: fn %s has no call of %s(' % (key, fname))
                 if nhit: applied.append('N18')
+            if s.word == 'fmtwrite':
+                # N9: every `write!(BUF, "lit{}lit..", ARGS..)` of the fn -> `{ vx_put_str(BUF, "lit"); <putter>(BUF, ARG); ..; vx_fmt_ok() }`
+                # args: one putter kind per placeholder, in order over all write! calls of the fn: str | u64 | usize
+                kinds = list(s.args); nw = 0
+                k = it.body_open + 1
+                while k < it.body_close:
+                    if src.is_id(k, 'write') and src.is_p(k + 1, '!') and src.is_p(k + 2, '('):
+                        po = k + 2; pc = src.match(po)
+                        parts = []; a0 = po + 1; q = po + 1
+                        while q < pc:
+                            tt = src.t(q)
+                            if tt.kind == 'punct' and tt.text in OPEN: q = src.match(q) + 1; continue
+                            if tt.kind == 'punct' and tt.text == ',': parts.append((a0, q)); a0 = q + 1
+                            q += 1
+                        if a0 < pc: parts.append((a0, pc))
+                        bufe = src.text_of(*parts[0])
+                        lit = src.t(parts[1][0])
+                        if lit.kind != 'str' or parts[1][1] != parts[1][0] + 1: raise SpliceError('unsupported: N9 format string of write! in fn %s is not a literal' % key)
+                        lt = lit.text
+                        if lt.startswith('r'):
+                            h = lt[1:].index('"'); body = lt[2 + h:len(lt) - 1 - h]
+                        else:
+                            body = bytes(lt[1:-1], 'utf-8').decode('unicode_escape')
+                        if '{{' in body or '}}' in body: raise SpliceError('unsupported: N9 escaped braces in fn %s' % key)
+                        pieces = body.split('{}')
+                        if any('{' in p_ or '}' in p_ for p_ in pieces): raise SpliceError('unsupported: N9 format spec other than {} in fn %s' % key)
+                        argsx = [src.text_of(*p_) for p_ in parts[2:]]
+                        if len(argsx) != len(pieces) - 1: raise SpliceError('unsupported: N9 placeholder/argument count in fn %s' % key)
+                        def rl(p_): return '"' + p_.replace('\\', '\\\\').replace('"', '\\"').replace('\n', '\\n') + '"'
+                        out = ['{ ']
+                        for i_, p_ in enumerate(pieces):
+                            if p_: out.append('proof { reveal_strlit(%s); } vx_put_str(%s, %s); ' % (rl(p_), bufe, rl(p_)))
+                            if i_ < len(argsx):
+                                if not kinds: raise SpliceError('lost anchor: fmtwrite of fn %s names too few placeholder kinds' % key)
+                                kd = kinds.pop(0)
+                                out.append('%s(%s, %s); ' % ({'str': 'vx_put_str', 'u64': 'vx_put_u64', 'usize': 'vx_put_usize'}[kd], bufe, argsx[i_]))
+                        out.append('vx_fmt_ok() }')
+                        self.ed.replace(src.t(k).start, src.t(pc).end, ''.join(out))
+                        nw += 1; k = pc + 1; continue
+                    k += 1
+                if nw == 0 and not s.optional: raise SpliceError('lost anchor: fn %s has no write!(' % key)
+                if nw: applied.append('N9')
             if s.word == 'select':
                 self.select_rewrite(it, applied)
 
